@@ -83,6 +83,24 @@ MUTS={
  "C10-M6-first-duplicate-wins": ("C10", lambda: rep(EH, """                changes[name] = value""", """                changes.setdefault(name, value)""")),
  "C10-M7-negative-offset-not-fixed-up": ("C10", lambda: rep(UT, 'value[-6] in ["+", "-"]', 'value[-6] in ["+"]')),
  "C09-M6-unguarded-granted-timeout": ("C09", lambda: rep(EH, "            except (ValueError, OverflowError):", "            except (KeyError,):", 2)),
+ "C11-M4-replay-skips-repeated-body": ("C11", lambda: rep(EH, """            for item in self._backlog[sid]:
+                await self.handle_notify(item[0], item[1])""", """            replayed = set()
+            for item in self._backlog[sid]:
+                if item[1] in replayed:
+                    continue
+                replayed.add(item[1])
+                await self.handle_notify(item[0], item[1])""")),
+ "C10-M8-identical-event-skipped": ("C10", lambda: rep(EH, """        # decode event and send updates to service
+        changes = {}""", """        if getattr(self, "_last_event", None) == (sid, body):
+            return HTTPStatus.OK
+        self._last_event = (sid, body)
+        # decode event and send updates to service
+        changes = {}""")),
+ "C10-M9-unchanged-value-not-reported": ("C10", lambda: rep(CL, """        self.validate_value(value)
+        self._value = value""", """        self.validate_value(value)
+        if value == self._value:
+            return
+        self._value = value""")),
  "C11-M1-replay-newest-only": ("C11", lambda: rep(EH, "for item in self._backlog[sid]:", "for item in self._backlog[sid][-1:]:")),
  "C11-M2-delete-before-replay": ("C11", lambda: rep(EH, """            for item in self._backlog[sid]:
                 await self.handle_notify(item[0], item[1])
